@@ -12,7 +12,7 @@ RULE = ("envelopes over a pool of 1-5 keys, each key's entry drawn from 22 state
         "valid authorized signers; non-trivial = the envelope passes the argument checks and has at least one entry; "
         "distinct by (envelope, authorized list, threshold, mode)")
 
-THEOREMS = ["verifySignable_sound", "thresholdMet_iff_counting", "counted_keys_distinct_bytes", "threshold_needs_enough_authorized"]
+THEOREMS = ["entryClass_counts_iff", "verifySignable_sound", "thresholdMet_iff_counting", "counted_keys_distinct_bytes", "threshold_needs_enough_authorized"]
 
 
 def signable_batch(ck: Check, n: int, want_modes=(False, True)):
@@ -59,6 +59,35 @@ def run(ck: Check) -> None:
                          {"request": r.case.op + " " + proto.enc(case.args[0])[:1500], "authorized": case.args[1], "threshold": case.meta["thr"],
                           "mode": case.tag, "oracle_count": case.meta["count"], "entry_states": case.meta["states"]},
                          "unsound:" + case.tag)
+    # entry by entry: the class the model's loop body assigns to every entry of every envelope (driver op `vclass`, Model/Auth.lean `entryClass`; theorem
+    # entryClass_counts_iff) against the independent oracle's per-key verdict — a finer comparison than the call's verdict, and a record of which branches
+    # of the model the run exercised
+    ck.correspondences.add("corr:entry-classes/model-vs-oracle")
+    seen_env = set()
+    lines, meta = [], []
+    for (case, want, c) in batch:
+        gpg = case.tag == "gpg"
+        if id(c["env"]) in seen_env or not envgen.well_typed(c["env"], c["auth"], 1):
+            continue
+        seen_env.add(id(c["env"]))
+        lines.append("vclass " + proto.enc(c["env"]) + " " + proto.enc(c["auth"]) + " " + proto.enc(gpg))
+        meta.append((c, gpg, case.group))
+    for ln, (c, gpg, grp), ans in zip(lines, meta, ck.driver.run(lines, [m[2] for m in meta])):
+        ck.evaluations += 1
+        ck.oracle_checks += 1
+        classes = ans[2:].split(",") if ans.startswith("C ") and ans[2:] not in ("", "-") else []
+        keys = list(c["env"]["signatures"])
+        for cl in classes:
+            ck.count("model-branch:" + cl)
+        counted_model = {proto.enc(k) for k, cl in zip(keys, classes) if cl == "counts"}
+        counted_oracle = {proto.enc(k) for k in envgen.counting_keys(c["env"], c["auth"], gpg)}
+        if not ans.startswith("C ") or len(classes) != len(keys) or counted_model != counted_oracle or "error" in classes:
+            ck.mismatch_total += 1
+            kk = "entry-classes:" + ("gpg" if gpg else "raw")
+            ck.mismatch_kinds[kk] = ck.mismatch_kinds.get(kk, 0) + 1
+            if len(ck.mismatches) < 10:
+                ck.mismatches.append({"corr": "corr:entry-classes/model-vs-oracle", "line": ln[:1500], "impl": "oracle counts " + ",".join(sorted(counted_oracle))[:300],
+                                      "model": ans[:300], "tag": "gpg" if gpg else "raw", "meta": {"states": c["states"]}, "stdout_encoding": "utf-8"})
     # the same envelopes when the diagnostics cannot be printed (stdout full, a broken pipe, closed, absent): whatever the library then does with the
     # failed print, it may not accept what it otherwise rejects
     from .. import impl
